@@ -138,6 +138,13 @@ def lin_cfgs(tier, seed):
 
 
 def stats_cfgs(tier, seed, parts):
+    C = _stats_cfgs(tier, seed, parts)
+    for (_sc, d) in C:
+        d.setdefault("maxpaths", 10 if tier == "quick" else 40)
+    return C
+
+
+def _stats_cfgs(tier, seed, parts):
     C = []
     if "ident" in parts:
         C += [("stats", dict(n=4, m=2, p=1, w="diag")), ("stats", dict(n=4, m=1, p=2, w="none")), ("stats", dict(n=3, m=1, p=1, w="diag")),
